@@ -207,6 +207,13 @@ func checkC04(P *Prog, r *Result) {
 	// absence means different things in the two modes: no node may run a child in the other mode
 	P.checkModeConsistent(r, "C04/mode-consistent")
 	_ = R
+	// an absent request parameter is absent: `tags[]` missing from a form reaches the schema as nil, not as a non-nil
+	// interface holding a nil list (C15's rule on the url.Values provider) - else Required is not raised and a Default is
+	// not applied
+	shareRule(P, r, checkC15, "C15/list-scalar-absent", nil, "C04/absent-parameter-is-absent", 1)
+	// the default that replaces an absent value is a copy of the schema's: a destination that shares the schema's slice
+	// changes what later executions get as their default (C19's rule)
+	shareRule(P, r, checkC19, "C19/default-not-aliased", nil, "C04/default-is-copied", 1)
 }
 
 func (P *Prog) checkZeroBinding(r *Result, sites []*ssa.Function) {
